@@ -21,7 +21,7 @@ def run(ctx):
         nb, seeds, par = 600, 1, 4
         more_b = [("chainwrong", 5)]
     else:
-        fams_laws = ["CorruptSnap", "CorruptDelta", "BigSnap", "BigDelta", "Registry", "TypeSweep", "Reuse", "ChainWrongThorough"]
+        fams_laws = ["CorruptSnap", "CorruptDelta", "BigSnap", "BigDelta", "Registry", "TypeSweep", "Reuse", "ChainWrongQuick"]
         fams_a = list(fams_laws)
         nb, seeds, par = 6000, 6, 8
         more_b = [("chainwrong", 40)]
